@@ -1,89 +1,250 @@
 """C09 - pair-symmetric momentum equations conserve linear/angular momentum.
 
-Closed systems of 1-2 mutually interacting particle arrays (every array is a
+Closed systems of 1-3 mutually interacting particle arrays (every array is a
 destination with all arrays as sources) are evaluated with the compiled
 shipped equations; the oracle is the conservation law itself:
 |sum m a| <= 1e-12 * sum m|a|, and for central-force terms the same for
 sum m x cross a.  One JIT compile per (kernel, number of arrays, dim);
 the equation under test is selected per evaluation through group conditions,
 the neighbour algorithm through set_nnps (no recompile).
+
+Which sums are asserted for which equation is written in the EQUATIONS table
+below (one entry per class and constructor-option set):
+
+* linear   sum over ALL arrays of m*(acc triple) = 0, for every acceleration
+           triple listed in `acc` (au/av/aw, the transport accelerations
+           auhat/avhat/awhat, PCISPH's aup/avp/awp, XSPH's ax/ay/az minus
+           the post-loop velocity);
+* angular  sum m x cross a = 0 in addition when `central` (pair force along
+           r_ab);
+* energy   sum m (ae + v.a) = 0 when `energy` (the gas-dynamics classes that
+           write the thermal-energy rate in the same loop: the
+           thermokinetic pair terms cancel exactly);
+* volume   sum (m/rho) arho = 0 for the diffusive delta-SPH continuity term.
 """
 from hypothesis import strategies as st
 
 from vlib.hyp import (Failure, Outcome, Stats, search, derive_seed, canon,
                       case_hash)
 
-RULE = ('system = 1-2 mutually interacting arrays (6-30 particles each, '
-        'random positions incl. a few coincident pairs, masses, densities, '
-        'pressures, sound speeds, velocities, per-particle h within a factor '
-        '2), dim 1-3, kernel, neighbour algorithm, one equation of the '
-        'pair-symmetric list active. Non-trivial = sum m|a| > 0 and >= 1 '
-        'interacting pair with different h; distinct by (equation, kernel, '
-        'dim, nnps, data) hash.')
+RULE = ('system = 1-3 mutually interacting arrays (6-24 particles each, '
+        'random positions incl. coincident pairs inside an array and across '
+        'arrays, masses, densities, pressures of one or both signs, sound '
+        'speeds, velocities, per-particle h within a factor 2 or 4, a second '
+        'array with a different mass/h scale), dim 1-3, kernel, neighbour '
+        'algorithm with and without neighbour cache, serial or OpenMP '
+        'evaluator, open or periodic box, one equation of the pair-symmetric '
+        'table active with one of its constructor-option sets. Non-trivial = '
+        'sum m|a| > 0 and >= 1 interacting pair with different h; distinct '
+        'by (equation, kernel, dim, nnps, data) hash.')
 ASSUMPTIONS = [
-    'the list of pair-symmetric equations is fixed below with the reason '
-    'each qualifies; body forces off; equal equation constants on all '
-    'arrays',
+    'the table of pair-symmetric equations is fixed below with the reason '
+    'each qualifies and the sums asserted for it; body forces off; equal '
+    'equation constants on all arrays',
     'tolerance 1e-12 relative to sum m|a| (measured <= 7e-17 on the '
-    'unchanged tree)',
+    'unchanged tree for the exactly antisymmetric classes, <= 1e-15 for '
+    'those whose pair coefficient is symmetric only up to rounding)',
     'neighbour algorithms restricted to those C01 shows exact on generic '
-    'clouds; thread interleavings not controlled (serial evaluator)',
+    'clouds (StratifiedSFCNNPS only for one array: open C01 finding); '
+    'thread interleavings not controlled',
+    'periodic boxes: linear momentum only (angular momentum is not '
+    'conserved in a periodic box), box at least two cells wide',
+    'energy/volume sums are consequences of the same pair symmetry and are '
+    'asserted only for the classes marked so in the table',
 ]
 ESSENTIAL_LABELS = {'all': ['two_arrays', 'one_array', 'angular_checked',
                             'density_checked', 'variable_h',
-                            'mixed_sign_pressure']}
+                            'mixed_sign_pressure', 'three_arrays',
+                            'energy_checked', 'cache_on', 'cache_off',
+                            'h_ratio_ge_2', 'h_ratio_ge_4',
+                            'arrays_differ_in_scale', 'coincident_in_array',
+                            'coincident_across_arrays', 'periodic',
+                            'openmp', 'fam:wcsph', 'fam:tvf', 'fam:edac',
+                            'fam:gtvf', 'fam:gas', 'fam:solid', 'fam:isph',
+                            'fam:surface', 'tensile_on', 'tensile_off',
+                            'artificial_stress_on', 'artificial_stress_off']}
 SHARD_TIMEOUT = {'quick': 1700, 'thorough': 8 * 3600}
+TOL = 1e-12
+A3 = ('au', 'av', 'aw')
+AH = ('auhat', 'avhat', 'awhat')
 
-# (module, class, kwargs, central?, acceleration props) -- why symmetric
+
+def E(mod, name, kw=None, central=True, acc=(A3,), energy=False, prep=(),
+      fam='wcsph', sub=None, scalar=None, combined=False, tag='', dt=0.01):
+    return dict(mod='pysph.sph.' + mod, name=name, kw=kw or {}, dt=dt,
+                central=central, acc=[tuple(a) for a in acc], energy=energy,
+                prep=tuple(prep), fam=fam, sub=sub, scalar=scalar,
+                combined=combined, tag=tag)
+
+
+# Every Equation subclass under pysph.sph whose loop() adds to an
+# acceleration was read and classified.  Listed: pair coefficient invariant
+# under a<->b (times an antisymmetric gradient).  NOT pair symmetric, hence
+# not listed (each named so that nothing is dropped silently):
+#   wc.edac.MomentumEquationPressureGradient (au part subtracts the
+#     destination's own pavg; its auhat part IS listed),
+#   wc.gtvf.MomentumEquationPressureGradient auhat part and
+#     isph.sisph.GTVFAcceleration (destination's p0/rho_a^2 only),
+#   isph.isph/sisph.MomentumEquationPressureGradient (p_a - p_b form),
+#   surface_tension.ShadlooViscosity (no mass factor: sum a = 0, not sum m a),
+#   CSF/ShadlooYildiz surface forces, boundary, rigid-body, no-slip and
+#   *Boundary/*Solid coupling classes (one-sided by design), BodyForce,
+#   basic/TVF/GTVF ContinuityEquation (m_b v_ab.grad W is symmetric, no
+#   conserved sum), EDACEquation, solid_mech.EnergyEquationWithStress,
+#   crksph.EnergyEquation (needs the time-advanced velocities),
+#   gas_dynamics.gsph.GSPHAcceleration (pair symmetric only up to the mirror
+#     symmetry of the iterative Riemann solvers: that is C15),
+#   swe.* (variational h terms, own property set).
 EQUATIONS = [
+    # ---- WCSPH family
     # p_a/rho_a^2 + p_b/rho_b^2 + Pi_ab(HIJ, RHOIJ, c_ab) (+ tensile R_a+R_b
     # f_ab^n) times grad W(HIJ): invariant under a<->b, along r_ab
-    ('pysph.sph.wc.basic', 'MomentumEquation',
-     dict(c0=10.0, alpha=0.5, beta=0.5, tensile_correction=True), True,
-     ('au', 'av', 'aw')),
-    ('pysph.sph.wc.basic', 'MomentumEquation',
-     dict(c0=10.0, alpha=0.0, beta=0.0, tensile_correction=False), True,
-     ('au', 'av', 'aw')),
+    E('wc.basic', 'MomentumEquation',
+      dict(c0=10.0, alpha=0.5, beta=0.5, tensile_correction=True),
+      tag='tensile_on'),
+    E('wc.basic', 'MomentumEquation',
+      dict(c0=10.0, alpha=0.0, beta=0.0, tensile_correction=False),
+      tag='tensile_off'),
+    E('wc.basic', 'MomentumEquation',
+      dict(c0=2.0, alpha=1.0, beta=0.0, tensile_correction=False),
+      tag='tensile_off'),
+    E('wc.basic', 'MomentumEquation',
+      dict(c0=10.0, alpha=0.0, beta=1.0, tensile_correction=True),
+      tag='tensile_on'),
     # -(p_a V_a^2 + p_b V_b^2)/m_a grad W(HIJ)
-    ('pysph.sph.wc.basic', 'PressureGradientUsingNumberDensity', {}, True,
-     ('au', 'av', 'aw')),
+    E('wc.basic', 'PressureGradientUsingNumberDensity'),
     # -m_b Pi_ab grad W(HIJ), Pi_ab from RHOIJ, c_ab average, HIJ
-    ('pysph.sph.basic_equations', 'MonaghanArtificialViscosity',
-     dict(alpha=1.0, beta=1.0), True, ('au', 'av', 'aw')),
+    E('basic_equations', 'MonaghanArtificialViscosity',
+      dict(alpha=1.0, beta=1.0)),
+    E('basic_equations', 'MonaghanArtificialViscosity',
+      dict(alpha=0.0, beta=2.0)),
+    # alpha h_ab c0 rho0 pi_ab V_a V_b / m_a grad W
+    E('wc.basic', 'MomentumEquationDeltaSPH',
+      dict(rho0=1.0, c0=10.0, alpha=0.5)),
+    # m_b 4 nu F_ab v_ab /((rho_a+rho_b)(r^2+eta h_ab^2)): along v_ab
+    E('wc.viscosity', 'LaminarViscosity', dict(nu=0.1), central=False),
+    E('wc.viscosity', 'LaminarViscosity', dict(nu=1.0, eta=0.25),
+      central=False),
+    E('wc.viscosity', 'MonaghanSignalViscosityFluids',
+      dict(alpha=0.5, h=0.4)),
+    # -m_b K mu_a mu_b/(rho_a rho_b (mu_a+mu_b)) v_ab.r_ab/(r^2+eps) grad W
+    # (mu from the particle's own h, c, rho): along r_ab
+    E('wc.viscosity', 'ClearyArtificialViscosity', dict(alpha=0.5)),
+    # 2(d+2) nu rho0 pi_ab V_a V_b / m_a grad W
+    E('wc.viscosity', 'LaminarViscosityDeltaSPH', dict(rho0=1.0, nu=0.1)),
+    # -2 m_b p*/(rho_a rho_b) grad W, p* of the acoustic Riemann problem
+    # along r_ab: the mirrored problem has the same p*
+    E('wc.parshikov', 'Momentum'),
+    E('wc.zhanghuadams', 'MomentumFluid', dict(c0=10.0)),
+    # m_b 4 nu x_ab.grad W v_ab/((rho_a+rho_b)(r^2+eps)).  Its post_loop
+    # advances u by dt*au (predictor), so with several destination arrays
+    # the later ones would see moved velocities: evaluated with dt = 0
+    E('wc.pcisph', 'MomentumEquationViscosity', dict(nu=0.1), central=False,
+      dt=0.0),
+    # "standard WCSPH pressure gradient" into aup/avp/awp.  Known defect on
+    # the unchanged tree: the loop reads s_m[d_idx]; the input class that
+    # shows it (masses not all equal, or arrays of different length) is
+    # excluded by construction for this class only (prep 'pcisph_mass').
+    E('wc.pcisph', 'MomentumEquationPressureGradient',
+      dict(rho0=1.0, tolerance=1e-3, debug=False),
+      acc=(('aup', 'avp', 'awp'),), prep=('pcisph_mass',)),
+    # -(V_a V_b/m_a)(p_a+p_b+Q_a+Q_b) grad W (eq. 64 of the CRKSPH paper)
+    E('wc.crksph', 'MomentumEquation', {}, prep=('crksph_h',)),
+    # 2 nu m_b/rho_ab x_ab.grad W v_ab/(r^2+eps)
+    E('iisph', 'ViscosityAcceleration', dict(nu=0.1), central=False,
+      fam='isph'),
+    E('iisph', 'PressureForce', fam='isph'),
+    E('isph.isph', 'MomentumEquationPressureGradientSymmetric', fam='isph'),
+    E('isph.sisph', 'MomentumEquationPressureGradientSymmetric', fam='isph'),
+    # symmetric branch (source density not below 0.98 rho0; the mirror
+    # branch is one-sided by design)
+    E('isph.isph', 'MomentumEquationPressureGradientSymmetricMirror',
+      prep=('rho0_low',), fam='isph'),
+    # ---- TVF
     # (V_a^2+V_b^2)/m_a * p_ab(density weighted) grad W(HIJ); pb term -> auhat
-    ('pysph.sph.wc.transport_velocity', 'MomentumEquationPressureGradient',
-     dict(pb=2.0), True, ('au', 'av', 'aw')),
+    E('wc.transport_velocity', 'MomentumEquationPressureGradient',
+      dict(pb=2.0), acc=(A3, AH), combined=True, fam='tvf'),
     # (V_a^2+V_b^2)/m_a * 2 eta_a eta_b/(eta_a+eta_b) F_ab v_ab : symmetric,
     # not central
-    ('pysph.sph.wc.transport_velocity', 'MomentumEquationViscosity',
-     dict(nu=0.1), False, ('au', 'av', 'aw')),
+    E('wc.transport_velocity', 'MomentumEquationViscosity', dict(nu=0.1),
+      central=False, fam='tvf'),
     # -m_b Pi_ab grad W with HIJ, RHOIJ
-    ('pysph.sph.wc.transport_velocity', 'MomentumEquationArtificialViscosity',
-     dict(c0=10.0, alpha=0.3), True, ('au', 'av', 'aw')),
-    ('pysph.sph.wc.viscosity', 'LaminarViscosity', dict(nu=0.1), False,
-     ('au', 'av', 'aw')),
-    ('pysph.sph.gas_dynamics.basic', 'Monaghan92Accelerations',
-     dict(alpha=1.0, beta=2.0), True, ('au', 'av', 'aw')),
+    E('wc.transport_velocity', 'MomentumEquationArtificialViscosity',
+      dict(c0=10.0, alpha=0.3), fam='tvf'),
+    E('wc.transport_velocity', 'MomentumEquationArtificialStress', {},
+      central=False, fam='tvf'),
+    # ---- EDAC
     # number-density form -(V_a^2+V_b^2)/m_a pbar_ab grad W(HIJ)
-    # (wc.edac.MomentumEquationPressureGradient is NOT pair symmetric: it
-    # subtracts the destination's own average pressure d_pavg[d_idx])
-    ('pysph.sph.wc.edac', 'MomentumEquation', dict(c0=10.0), True,
-     ('au', 'av', 'aw')),
-    ('pysph.sph.wc.basic', 'MomentumEquationDeltaSPH',
-     dict(rho0=1.0, c0=10.0, alpha=0.5), True, ('au', 'av', 'aw')),
-    ('pysph.sph.wc.viscosity', 'MonaghanSignalViscosityFluids',
-     dict(alpha=0.5, h=0.4), True, ('au', 'av', 'aw')),
-    ('pysph.sph.wc.viscosity', 'ClearyArtificialViscosity',
-     dict(alpha=0.5), False, ('au', 'av', 'aw')),
-    ('pysph.sph.gas_dynamics.basic', 'ADKEAccelerations',
-     dict(alpha=1.0, beta=1.0, g1=0.2, g2=0.4, k=1.0, eps=0.5), True,
-     ('au', 'av', 'aw')),
-    ('pysph.sph.gas_dynamics.basic', 'MPMAccelerations', dict(beta=2.0),
-     True, ('au', 'av', 'aw')),
-    ('pysph.sph.wc.transport_velocity', 'MomentumEquationArtificialStress',
-     {}, False, ('au', 'av', 'aw')),
-    ('pysph.sph.solid_mech.basic', 'MomentumEquationWithStress', {}, False,
-     ('au', 'av', 'aw')),
+    E('wc.edac', 'MomentumEquation', dict(c0=10.0), fam='edac'),
+    # only the background-pressure part -pb (V_a^2+V_b^2)/m_a grad W
+    E('wc.edac', 'MomentumEquationPressureGradient', dict(pb=2.0),
+      acc=(AH,), fam='edac'),
+    # ---- GTVF
+    # -m_b (p_a/rho_a^2 + p_b/rho_b^2) grad W into au (auhat: one-sided)
+    E('wc.gtvf', 'MomentumEquationPressureGradient', dict(pref=4.0),
+      fam='gtvf'),
+    E('wc.gtvf', 'MomentumEquationViscosity', dict(nu=0.1), central=False,
+      fam='gtvf'),
+    # m_b (A_a/rho_a^2 + A_b/rho_b^2) . grad W
+    E('wc.gtvf', 'MomentumEquationArtificialStress', {}, central=False,
+      fam='gtvf'),
+    E('wc.gtvf', 'MomentumEquationArtificialStressSolid', {}, central=False,
+      fam='gtvf'),
+    # ---- gas dynamics
+    E('gas_dynamics.basic', 'Monaghan92Accelerations',
+      dict(alpha=1.0, beta=2.0), energy=True, fam='gas'),
+    E('gas_dynamics.basic', 'ADKEAccelerations',
+      dict(alpha=1.0, beta=1.0, g1=0.2, g2=0.4, k=1.0, eps=0.5),
+      energy=True, fam='gas'),
+    # -m_b (P_a Omega_a grad W(h_a) + P_b Omega_b grad W(h_b)) + signal
+    # viscosity along r_ab
+    E('gas_dynamics.basic', 'MPMAccelerations', dict(beta=2.0), energy=True,
+      fam='gas'),
+    E('gas_dynamics.basic', 'MPMAccelerations',
+      dict(beta=1.0, update_alpha1=True, update_alpha2=True), energy=True,
+      fam='gas'),
+    # grad-h forms: m_b (P_a f_ab grad W(h_a) + P_b f_ba grad W(h_b)) and
+    # viscosity times the antisymmetric grad W(h_a) + grad W(h_b)
+    E('gas_dynamics.tsph', 'MomentumAndEnergy', dict(fkern=1.0, beta=2.0),
+      energy=True, fam='gas'),
+    E('gas_dynamics.psph', 'MomentumAndEnergy',
+      dict(fkern=1.0, gamma=1.4), energy=True, prep=('positive_p',),
+      fam='gas'),
+    # MAGMA2: (P_a+q_a)/rho_a^2 G_a + (P_b+q_b)/rho_b^2 G_b with the
+    # reconstructed, pair-antisymmetric velocity jump
+    E('gas_dynamics.magma2', 'MomentumAndEnergyStdGrad', dict(fkern=1.0),
+      energy=True, prep=('positive_p',), fam='gas'),
+    E('gas_dynamics.magma2', 'MomentumAndEnergyMI1', dict(fkern=1.0),
+      central=False, energy=True, prep=('positive_p',), fam='gas'),
+    E('gas_dynamics.magma2', 'MomentumAndEnergyMI2', dict(fkern=1.0),
+      central=False, energy=True, prep=('positive_p',), fam='gas'),
+    # ---- solid mechanics
+    # m_b (sigma_a/rho_a^2 + sigma_b/rho_b^2 + (R_a+R_b) f^n) . grad W; the
+    # constants wdeltap and n must be equal on all arrays
+    E('solid_mech.basic', 'MomentumEquationWithStress', {}, central=False,
+      prep=('stress_consts',), fam='solid'),
+    # ---- surface-tension module (Hu-Adams / Adami / Morris forms)
+    E('surface_tension', 'SurfaceForceAdami', {}, central=False,
+      fam='surface'),
+    E('surface_tension', 'MomentumEquationViscosityAdami', {}, central=False,
+      fam='surface'),
+    E('surface_tension', 'MomentumEquationPressureGradientHuAdams',
+      fam='surface'),
+    E('surface_tension', 'MomentumEquationPressureGradientAdami',
+      fam='surface'),
+    E('surface_tension', 'MomentumEquationViscosityMorris', dict(eta=0.1),
+      central=False, fam='surface'),
+    E('surface_tension', 'MomentumEquationPressureGradientMorris',
+      fam='surface'),
+    # ---- other pair-antisymmetric sums
+    # XSPH: ax - u = -eps sum m_b v_ab W_ab / rho_ab (Monaghan 1992: XSPH
+    # conserves linear momentum); not a force: no angular statement
+    E('basic_equations', 'XSPHCorrection', dict(eps=0.5), central=False,
+      acc=(('ax', 'ay', 'az'),), sub=('u', 'v', 'w'), fam='other'),
+    # diffusive delta-SPH term: psi_ab symmetric, V_a V_b grad W
+    # antisymmetric -> sum V_a arho_a = 0
+    E('wc.basic', 'ContinuityEquationDeltaSPH', dict(c0=10.0, delta=0.1),
+      central=False, acc=(), scalar=('arho', 'volume'), fam='other'),
 ]
 # DictBoxSortNNPS has no compiled query (it serves the parallel manager
 # only) and StratifiedSFCNNPS has an open C01 finding for several arrays
@@ -91,31 +252,60 @@ NNPS = ['LinkedListNNPS', 'BoxSortNNPS', 'SpatialHashNNPS',
         'ExtendedSpatialHashNNPS', 'StratifiedHashNNPS', 'ZOrderNNPS',
         'ExtendedZOrderNNPS', 'CellIndexingNNPS', 'OctreeNNPS',
         'CompressedOctreeNNPS']
+NNPS_ONE_ARRAY = NNPS + ['StratifiedSFCNNPS']
 KERNELS = ['CubicSpline', 'QuinticSpline', 'WendlandQuintic', 'Gaussian',
            'WendlandQuinticC4', 'WendlandQuinticC6', 'SuperGaussian']
-DENSITY = [('pysph.sph.basic_equations', 'SummationDensity'),
-           ('pysph.sph.wc.transport_velocity', 'SummationDensity'),
-           ('pysph.sph.gas_dynamics.basic', 'SummationDensity')]
+KERNELS_1D = ['WendlandQuinticC2_1D', 'WendlandQuinticC4_1D',
+              'WendlandQuinticC6_1D']
+# (module, class, property that must be positive)
+DENSITY = [('pysph.sph.basic_equations', 'SummationDensity', 'rho'),
+           ('pysph.sph.wc.transport_velocity', 'SummationDensity', 'rho'),
+           ('pysph.sph.gas_dynamics.basic', 'SummationDensity', 'rho'),
+           ('pysph.sph.iisph', 'SummationDensity', 'rho'),
+           ('pysph.sph.isph.sisph', 'SummationDensity', 'rho'),
+           ('pysph.sph.gas_dynamics.tsph', 'SummationDensity', 'rho'),
+           ('pysph.sph.swe.basic', 'SummationDensity', 'summation_rho'),
+           ('pysph.sph.surface_tension', 'SummationDensitySourceMass',
+            'rho')]
+# (SummationDensityADKE resets h to h0 in initialize: it needs a neighbour
+# update inside its group and cannot be evaluated on a prepared search)
 ACTIVE = [0]
+ZEROED = ('au', 'av', 'aw', 'auhat', 'avhat', 'awhat', 'aup', 'avp', 'awp',
+          'ax', 'ay', 'az', 'ae', 'arho')
+# auxiliary properties that may take either sign (tensors, gradients,
+# velocities); everything else stays positive (divisors, square roots)
+SIGNED = ('s00', 's01', 's02', 's11', 's12', 's22', 'r00', 'r01', 'r02',
+          'r11', 'r12', 'r22', 'pi00', 'pi01', 'pi02', 'pi10', 'pi11',
+          'pi12', 'pi20', 'pi21', 'pi22', 'sigma', 'uhat', 'vhat', 'what',
+          'gradrho', 'de', 'dde', 'ddv', 'grhox', 'grhoy', 'grhoz', 'div')
 
 
-def select(variant):
+NSLICES = {1: 1, 2: 2, 3: 4}
+
+
+def select(variant, narr=1, slc=None):
     """Two classes with the same name cannot live in one evaluator (the
     generated wrappers are keyed by class name), so same-named classes are
-    distributed over shard variants."""
-    eqs, seen = [], {}
-    for e in EQUATIONS:
-        seen.setdefault(e[1] + repr(sorted(e[2].items())), None)
-    names = {}
-    for e in EQUATIONS:
-        mods = names.setdefault(e[1], [])
-        if e[0] not in mods:
-            mods.append(e[0])
-    for e in EQUATIONS:
-        mods = names[e[1]]
-        if e[0] == mods[variant % len(mods)]:
-            eqs.append(e)
-    dens = [DENSITY[variant % len(DENSITY)]]
+    distributed over shard variants.  The size of the generated module
+    grows with (classes x arrays^2): systems of 2 (3) arrays take every
+    second (fourth) entry of the table, the slice rotating over shards."""
+    def pick(table, mod_of, name_of):
+        names = {}
+        for e in table:
+            mods = names.setdefault(name_of(e), [])
+            if mod_of(e) not in mods:
+                mods.append(mod_of(e))
+        return [e for e in table
+                if mod_of(e) == names[name_of(e)][
+                    variant % len(names[name_of(e)])]]
+    eqs = pick(EQUATIONS, lambda e: e['mod'], lambda e: e['name'])
+    if slc is not None:
+        nsl = NSLICES.get(narr, 4)
+        eqs = [e for i, e in enumerate(eqs) if i % nsl == slc % nsl]
+    dens = pick(DENSITY, lambda e: e[0], lambda e: e[1])
+    # the momentum classes and the densities share one evaluator too
+    taken = set(e['name'] for e in eqs)
+    dens = [d for d in dens if d[1] not in taken]
     return eqs, dens
 
 
@@ -127,24 +317,58 @@ def eq_class(mod, name):
 def layout_union(dim, kernel, EQUATIONS, DENSITY):
     from checks.c02_equations import infer_layout
     lay = {}
-    for mod, name, kw, central, acc in EQUATIONS:
-        l, why = infer_layout(eq_class(mod, name), dim, kernel)
-        if l is None:
-            raise RuntimeError('layout of %s: %s' % (name, why))
+
+    def merge(l):
         for k, v in l.items():
-            if k not in lay or v[1] > lay[k][1]:
+            if k not in lay:
                 lay[k] = v
-    for mod, name in DENSITY:
+            elif v[0] == 'prop' and lay[k][0] != 'prop':
+                # the same name is a per-particle property for one class
+                # and a constant (index 0) for another: a property serves
+                # both (its first entries are made equal on all arrays
+                # where the constant meaning is needed)
+                lay[k] = ('prop', max(1, v[1]))
+            elif v[0] == lay[k][0] and v[1] > lay[k][1]:
+                lay[k] = v
+    seen = set()
+    pending = []
+    for e in EQUATIONS:
+        if (e['mod'], e['name']) in seen:
+            continue
+        seen.add((e['mod'], e['name']))
+        l, why = infer_layout(eq_class(e['mod'], e['name']), dim, kernel)
+        if l is None:
+            # e.g. MAGMA2 MI1: its loop() is not executable as Python
+            # (declare() of 3 matrices unpacked into 2 names)
+            pending.append((e, why))
+            continue
+        merge(l)
+    for mod, name, prop in DENSITY:
         l, why = infer_layout(eq_class(mod, name), dim, kernel)
         if l:
-            for k, v in l.items():
-                if k not in lay or v[1] > lay[k][1]:
-                    lay[k] = v
-    for k in ('au', 'av', 'aw', 'auhat', 'avhat', 'awhat', 'V', 'p', 'cs'):
+            merge(l)
+    from vlib import eqcatalog as C
+    if pending:
+        # MAGMA2 correction matrix: indexed dim*dim*idx + row*dim + col.
+        # The stride must be the one the loops index with, or the periodic
+        # images (copied per stride block) would carry other entries.
+        lay.setdefault('cm', ('prop', dim * dim))
+    for e, why in pending:
+        # laid out by the classes that use the same names (MI2 for MI1)
+        obj, _ = C.instantiate(eq_class(e['mod'], e['name']), 'dd', ['dd'],
+                               dim)
+        d, sr = C.array_names(obj) if obj is not None else (set(), set())
+        missing = sorted(k for k in d | sr if k not in lay and
+                         k not in ('x', 'y', 'z', 'h', 'm', 'rho', 'p', 'cs',
+                                   'V', 'u', 'v', 'w', 'e') + ZEROED)
+        if obj is None or missing:
+            raise RuntimeError('layout of %s: %s (names without a layout: '
+                               '%s)' % (e['name'], why, missing))
+    for k in ZEROED + ('V', 'p', 'cs', 'e'):
         lay.setdefault(k, ('prop', 1))
     # names in a hook signature that the dry run did not touch
-    from vlib import eqcatalog as C
-    for mod, name in [(e[0], e[1]) for e in EQUATIONS] + DENSITY:
+    for mod, name in [(e['mod'], e['name']) for e in EQUATIONS] + \
+            [(d[0], d[1]) for d in DENSITY]:
         obj, _ = C.instantiate(eq_class(mod, name), 'dd', ['dd'], dim)
         if obj is not None:
             d, sr = C.array_names(obj)
@@ -153,13 +377,40 @@ def layout_union(dim, kernel, EQUATIONS, DENSITY):
     return lay
 
 
+H_MULT = [0.7, 1.0, 1.0, 1.4]
+H_MULT_WIDE = [0.5, 0.7, 1.0, 1.0, 1.4, 2.0]
+
+
 @st.composite
-def data_strategy(draw, narr, dim):
+def data_strategy(draw, narr, dim, rs=2.0):
+    import math
     arrays = []
-    L = draw(st.sampled_from([1.0, 1.5, 2.0]))
+    periodic = draw(st.sampled_from([0, 0, 0, 1]))
     h0 = draw(st.sampled_from([0.3, 0.4, 0.55]))
+    wide = draw(st.booleans())
+    ns, hss, scales = [], [], []
     for i in range(narr):
         n = draw(st.integers(6, 24))
+        # a second/third array on another mass and smoothing-length scale
+        hsc, msc = (1.0, 1.0)
+        if i > 0:
+            hsc, msc = draw(st.sampled_from([(1.0, 1.0), (2.0, 4.0),
+                                             (0.5, 0.125), (1.0, 8.0)]))
+        hs = [h0 * hsc * draw(st.sampled_from(H_MULT_WIDE if wide else
+                                              H_MULT))
+              for _ in range(n)]
+        ns.append(n)
+        hss.append(hs)
+        scales.append(msc)
+    if periodic:
+        # by construction at least two cells wide; a power of two keeps
+        # the image positions x +- L exact
+        hmax = max(max(hs) for hs in hss)
+        L = 2.0 ** math.ceil(math.log2(2.0 * rs * hmax * (1 + 1e-9)))
+    else:
+        L = draw(st.sampled_from([1.0, 1.5, 2.0]))
+    for i in range(narr):
+        n, hs, msc = ns[i], hss[i], scales[i]
         coords = []
         for a in range(3):
             if a < dim:
@@ -171,27 +422,92 @@ def data_strategy(draw, narr, dim):
         if n > 4 and draw(st.booleans()):
             for a in range(3):
                 coords[a][1] = coords[a][0]
-        hs = [h0 * draw(st.sampled_from([0.7, 1.0, 1.0, 1.4]))
-              for _ in range(n)]
+        # ... and across arrays (different arrays may overlap)
+        if i > 0 and draw(st.booleans()):
+            for a in range(3):
+                coords[a][2] = arrays[0][('x', 'y', 'z')[a]][0]
         pos = lambda: [draw(st.integers(8, 32)) / 16.0 for _ in range(n)]  # noqa
         gen = lambda: [draw(st.integers(-16, 16)) / 16.0 for _ in range(n)]  # noqa
         # pressures of both signs occur in weakly compressible flows
         # (tensile regions): half of the systems have mixed-sign pressures
         pk = draw(st.sampled_from(['positive', 'mixed']))
         arrays.append(dict(n=n, x=coords[0], y=coords[1], z=coords[2], h=hs,
-                           m=pos(), rho=pos(),
+                           m=[msc * v for v in pos()], rho=pos(),
                            p=pos() if pk == 'positive' else
                            [2.0 * v for v in gen()], cs=pos(), V=pos(),
                            u=gen(), v=gen(), w=gen(),
                            tab=[draw(st.integers(8, 32)) / 16.0
                                 for _ in range(8)]))
-    return dict(arrays=arrays, nnps=draw(st.sampled_from(NNPS)),
-                eq=draw(st.integers(0, len(EQUATIONS) + len(DENSITY) - 1)))
+    return dict(arrays=arrays,
+                nnps=draw(st.sampled_from(NNPS_ONE_ARRAY if narr == 1
+                                          else NNPS)),
+                eq=draw(st.integers(0, len(EQUATIONS) + len(DENSITY) - 1)),
+                cache=draw(st.booleans()), cv=draw(st.integers(0, 3)),
+                periodic=periodic, L=L)
 
 
-def specs_from(data, lay, names, dim):
+def name_hash(k):
+    return sum((i + 1) * ord(c) for i, c in enumerate(k))
+
+
+# ------------------------------------------------------------- state set-up
+def prep_data(data, entry, labels):
+    """Pure function of the case: the state an equation needs (or the input
+    class excluded for it, counted by a label).  Returns (data, forced)
+    where forced = {prop: value of the first entries on every array}."""
+    import copy
+    forced = {}
+    if entry is None or not entry['prep']:
+        return data, forced
+    data = copy.deepcopy(data)
+    for p in entry['prep']:
+        if p == 'positive_p':
+            # gas-dynamics classes divide by p or p_a + p_b
+            for a in data['arrays']:
+                a['p'] = [abs(v) + 0.25 for v in a['p']]
+        elif p == 'rho0_low':
+            for a in data['arrays']:
+                a['rho0'] = [0.9 * v for v in a['rho']]
+        elif p == 'stress_consts':
+            cv = data.get('cv', 0)
+            forced['wdeltap'] = -1.0 if cv & 1 else 1.25
+            forced['n'] = 4.0 if cv & 2 else 1.0
+            labels.append('artificial_stress_off' if cv & 1 else
+                          'artificial_stress_on')
+        elif p == 'pcisph_mass':
+            # KNOWN DEFECT excluded by construction (see EQUATIONS): the
+            # loop reads s_m[d_idx]
+            n = min(a['n'] for a in data['arrays'])
+            m0 = data['arrays'][0]['m'][0]
+            changed = False
+            for a in data['arrays']:
+                if a['n'] != n or any(v != m0 for v in a['m']):
+                    changed = True
+                for k, v in list(a.items()):
+                    if isinstance(v, list) and k != 'tab':
+                        a[k] = v[:n]
+                a['n'] = n
+                a['m'] = [m0] * n
+            if changed:
+                labels.append('excluded:pcisph_source_mass_at_dest_index')
+        elif p == 'crksph_h':
+            # KNOWN DEFECT excluded by construction (see EQUATIONS): mu_j is
+            # computed with the destination's h
+            h0 = data['arrays'][0]['h'][0]
+            changed = False
+            for a in data['arrays']:
+                if any(v != h0 for v in a['h']):
+                    changed = True
+                a['h'] = [h0] * a['n']
+            if changed:
+                labels.append('excluded:crksph_muj_uses_hi')
+    return data, forced
+
+
+def specs_from(data, lay, names, dim, forced=None):
     from vlib import eqcatalog as C
     out = []
+    forced = forced or {}
     for nm, a in zip(names, data['arrays']):
         n = a['n']
         props = {}
@@ -206,13 +522,28 @@ def specs_from(data, lay, names, dim):
             cnt = n * size if kind == 'prop' else size
             if tp != 'double':
                 vals = [0] * cnt
+            elif isinstance(a.get(k), list) and k != 'tab':
+                vals = list(a[k])
             else:
-                vals = [a['tab'][(j * 3 + len(k)) % 8] for j in range(cnt)]
+                # different names (s01/s02, uhat/vhat, ...) get different
+                # values, a third of the entries of signed quantities are
+                # negative
+                hk = name_hash(k)
+                vals = [a['tab'][(j * 3 + hk) % 8] *
+                        (1.0 + 0.125 * ((j + hk) % 3)) for j in range(cnt)]
+                if k in SIGNED:
+                    vals = [-v if (j * 5 + hk) % 3 == 0 else v
+                            for j, v in enumerate(vals)]
             if kind == 'prop':
+                if k in forced:
+                    vals = [forced[k]] * len(vals)
                 props[k] = dict(type=tp, stride=size, data=vals)
             else:
                 # constants must be equal on all arrays (closed system)
-                consts[k] = dict(data=[1.0 + 0.25 * j for j in range(size)])
+                cd = [1.0 + 0.25 * j for j in range(size)]
+                if k in forced:
+                    cd = [forced[k]] * size
+                consts[k] = dict(data=cd)
         out.append(dict(name=nm, n=n, nghost=0, props=props,
                         constants=consts))
     return out
@@ -222,54 +553,65 @@ class Sys(object):
     pass
 
 
-def setup(kernel_name, dim, narr, first, variant=0):
-    EQUATIONS, DENSITY = select(variant)
+def make_kwargs(cls, kw, dim):
+    import inspect
+    sig = inspect.signature(cls.__init__).parameters
+    kk = dict(kw)
+    if 'dim' in sig:
+        kk['dim'] = dim
+    return kk
+
+
+def setup(kernel_name, dim, narr, first, variant=0, openmp=False, slc=None):
+    EQUATIONS, DENSITY = select(variant, narr, slc)
     from pysph.base import kernels
     from pysph.sph.equation import Group
     from vlib import jit
-    from vlib import eqcatalog as C
+    if openmp:
+        from pysph.base.config import get_config
+        get_config().use_openmp = True
     s = Sys()
     s.names = ['a%d' % i for i in range(narr)]
     s.lay = layout_union(dim, kernel_name, EQUATIONS, DENSITY)
     s.EQUATIONS, s.DENSITY = EQUATIONS, DENSITY
     s.arrays = jit.make_arrays(specs_from(first, s.lay, s.names, dim))
     groups = []
-    s.eqs = []
-    for k, (mod, name, kw, central, acc) in enumerate(EQUATIONS):
-        cls = eq_class(mod, name)
-        es = []
-        for d in s.names:
-            import inspect
-            sig = inspect.signature(cls.__init__).parameters
-            kk = dict(kw)
-            if 'dim' in sig:
-                kk['dim'] = dim
-            es.append(cls(dest=d, sources=list(s.names), **kk))
+    for k, e in enumerate(EQUATIONS):
+        cls = eq_class(e['mod'], e['name'])
+        kk = make_kwargs(cls, e['kw'], dim)
+        es = [cls(dest=d, sources=list(s.names), **kk) for d in s.names]
         groups.append(Group(equations=es,
                             condition=lambda t, dt, k=k: ACTIVE[0] == k))
-    for j, (mod, name) in enumerate(DENSITY):
+    for j, (mod, name, prop) in enumerate(DENSITY):
         cls = eq_class(mod, name)
-        import inspect
-        sig = inspect.signature(cls.__init__).parameters
-        kk = {}
-        if 'dim' in sig:
-            kk['dim'] = dim
+        kk = make_kwargs(cls, {}, dim)
         es = [cls(dest=d, sources=list(s.names), **kk) for d in s.names]
         k = len(EQUATIONS) + j
         groups.append(Group(equations=es,
                             condition=lambda t, dt, k=k: ACTIVE[0] == k))
     s.kernel = getattr(kernels, kernel_name)(dim=dim)
     s.dim = dim
+    s.openmp = openmp
     s.ev = jit.compiled_evaluator(s.arrays, groups, s.kernel, dim)
-    s.nnps_cache = {}
     return s
 
 
-def get_nnps(s, name):
+def periodic_ok(s, data):
+    """A periodic box is generated only when it is at least two cells wide
+    (narrower boxes need several image layers, which the domain manager does
+    not create)."""
+    hmax = max(max(a['h']) for a in data['arrays'])
+    return data.get('periodic') and \
+        2.0 * s.kernel.radius_scale * hmax < data.get('L', 0.0)
+
+
+def get_nnps(s, name, cache=False, domain=None):
     from pysph.base import nnps as N
     cls = getattr(N, name)
     kw = dict(dim=s.dim, particles=s.arrays,
-              radius_scale=s.kernel.radius_scale, cache=False)
+              radius_scale=s.kernel.radius_scale, cache=cache)
+    if domain is not None:
+        kw['domain'] = domain
     nn = cls(**kw)
     return nn
 
@@ -281,78 +623,199 @@ def run(s, data, kernel_name):
     labels = []
     fails = []
     narr = len(s.names)
-    labels.append('two_arrays' if narr >= 2 else 'one_array')
-    specs = specs_from(data, s.lay, s.names, s.dim)
-    jit.load_data(s.arrays, specs)
-    nn = get_nnps(s, data['nnps'])
-    s.ev.nnps = nn
-    s.ev.func_eval.set_nnps(nn)
-    nn.update()
+    labels.append({1: 'one_array', 2: 'two_arrays'}.get(narr,
+                                                        'three_arrays'))
+    if narr >= 3:
+        labels.append('two_arrays')
     k = data['eq'] % (len(EQUATIONS) + len(DENSITY))
+    entry = EQUATIONS[k] if k < len(EQUATIONS) else None
+    data, forced = prep_data(data, entry, labels)
+    specs = specs_from(data, s.lay, s.names, s.dim, forced)
+    jit.load_data(s.arrays, specs)
+    periodic = bool(periodic_ok(s, data))
+    domain = None
+    if periodic:
+        from pysph.base.nnps import DomainManager
+        L = data['L']
+        kw = dict(xmin=0.0, xmax=L, periodic_in_x=True)
+        if s.dim >= 2:
+            kw.update(ymin=0.0, ymax=L, periodic_in_y=True)
+        if s.dim >= 3:
+            kw.update(zmin=0.0, zmax=L, periodic_in_z=True)
+        domain = DomainManager(**kw)
+        labels.append('periodic')
+    cache = bool(data.get('cache', False))
+    labels.append('cache_on' if cache else 'cache_off')
+    if s.openmp:
+        labels.append('openmp')
+    try:
+        nn = get_nnps(s, data['nnps'], cache, domain)
+        s.ev.nnps = nn
+        s.ev.func_eval.set_nnps(nn)
+        nn.update()
+    except Exception as ex:
+        if 'too many cells' in repr(ex).lower() or \
+                isinstance(ex, MemoryError):
+            return fails, labels + ['nnps_capacity_rejection'], False
+        return [Failure('nnps', 'exception', repr(ex),
+                        dict(nnps=data['nnps']))], labels, False
     ACTIVE[0] = k
     for pa in s.arrays:
-        for p in ('au', 'av', 'aw', 'auhat', 'avhat', 'awhat'):
-            pa.get_carray(p).get_npy_array()[:] = 0.0
+        for p in ZEROED:
+            if p in pa.properties:
+                pa.get_carray(p).get_npy_array()[:] = 0.0
     try:
-        s.ev.evaluate(0.0, 0.01)
+        s.ev.evaluate(0.0, entry['dt'] if entry else 0.01)
     except Exception as ex:
         return [Failure('evaluate', 'exception', repr(ex))], labels, False
-    hs = np.concatenate([pa.h for pa in s.arrays])
+    # the real particles (a periodic domain appends ghost images)
+    nreal = [a['n'] for a in data['arrays']]
+    hs = np.concatenate([pa.h[:n] for pa, n in zip(s.arrays, nreal)])
     varh = len(set(hs.tolist())) > 1
     if varh:
         labels.append('variable_h')
+    if hs.max() >= 2.0 * hs.min():
+        labels.append('h_ratio_ge_2')
+    if hs.max() >= 4.0 * hs.min():
+        labels.append('h_ratio_ge_4')
+    if narr > 1:
+        m0 = np.mean(data['arrays'][0]['m'])
+        if any(np.mean(a['m']) > 2.0 * m0 or np.mean(a['m']) < 0.5 * m0
+               for a in data['arrays'][1:]):
+            labels.append('arrays_differ_in_scale')
+    pts = [[(a['x'][i], a['y'][i], a['z'][i]) for i in range(a['n'])]
+           for a in data['arrays']]
+    if any(len(set(p)) < len(p) for p in pts):
+        labels.append('coincident_in_array')
+    if any(set(pts[0]) & set(p) for p in pts[1:]):
+        labels.append('coincident_across_arrays')
     if any(min(a['p']) < 0 < max(a['p']) for a in data['arrays']):
         labels.append('mixed_sign_pressure')
     if k >= len(EQUATIONS):
-        mod, name = DENSITY[k - len(EQUATIONS)]
+        mod, name, prop = DENSITY[k - len(EQUATIONS)]
         labels.append('density_checked')
-        for pa in s.arrays:
-            rho = pa.rho
+        labels.append('density:%s.%s' % (mod.split('.')[-1], name))
+        for pa, n in zip(s.arrays, nreal):
+            rho = pa.get(prop)[:n]
             if not (np.all(np.isfinite(rho)) and np.all(rho > 0)):
                 fails.append(Failure(
                     name, 'density_not_positive',
-                    '%s.%s: rho=%r on array %s' % (mod, name, rho.min(),
-                                                   pa.name),
+                    '%s.%s: %s=%r on array %s' % (mod, name, prop, rho.min(),
+                                                  pa.name),
                     dict(kernel=kernel_name)))
                 break
         return fails, labels, True
-    mod, name, kw, central, acc = EQUATIONS[k]
+    e = entry
+    name = e['name']
+    labels.append('fam:' + e['fam'])
+    labels.append('eq:%s.%s' % (e['mod'].split('.')[-1], name))
+    if e['tag']:
+        labels.append(e['tag'])
     kl = dict(eq=name, kernel=kernel_name)
-    P = np.zeros(3)
-    S = 0.0
-    Lm = np.zeros(3)
-    SL = 0.0
-    for pa in s.arrays:
-        m = pa.m
-        a = np.stack([pa.get(acc[0]), pa.get(acc[1]), pa.get(acc[2])],
-                     axis=1)
-        if name == 'MomentumEquationPressureGradient':
-            a = a + np.stack([pa.auhat, pa.avhat, pa.awhat], axis=1)
-        if not np.all(np.isfinite(a)):
-            # coincident particles may give 0/0 in some formulations: the
-            # statement is about rounding, count and leave
-            return fails, labels + ['nonfinite'], False
-        x = np.stack([pa.x, pa.y, pa.z], axis=1)
-        P += (m[:, None] * a).sum(axis=0)
-        an = np.sqrt((a * a).sum(axis=1))
-        S += float((m * an).sum())
-        Lm += (m[:, None] * np.cross(x, a)).sum(axis=0)
-        SL += float((m * np.sqrt((x * x).sum(axis=1)) * an).sum())
-    if S > 0 and np.abs(P).max() > 1e-12 * S:
-        fails.append(Failure(
-            name, 'linear_momentum',
-            '%s with %s/%s dim %d: |sum m a| = %.3g, sum m|a| = %.3g' % (
-                name, kernel_name, data['nnps'], s.dim, np.abs(P).max(), S),
-            kl))
-    if central and s.dim >= 2 and SL > 0:
-        labels.append('angular_checked')
-        if np.abs(Lm).max() > 1e-12 * SL:
+    where = '%s with %s/%s dim %d%s' % (
+        name, kernel_name, data['nnps'], s.dim,
+        ' periodic' if periodic else '')
+    nontrivial = False
+    trips = list(e['acc'])
+    sums = []
+    for acc in trips:
+        P = np.zeros(3)
+        S = 0.0
+        Lm = np.zeros(3)
+        SL = 0.0
+        for ia, (pa, n) in enumerate(zip(s.arrays, nreal)):
+            m = pa.m[:n]
+            a = np.stack([pa.get(acc[0])[:n], pa.get(acc[1])[:n],
+                          pa.get(acc[2])[:n]], axis=1)
+            araw = a
+            if e['sub']:
+                a = a - np.stack([np.asarray(data['arrays'][ia][q])
+                                  for q in e['sub']], axis=1)
+            if not np.all(np.isfinite(a)):
+                # coincident particles may give 0/0 in some formulations:
+                # the statement is about rounding, count and leave
+                return fails, labels + ['nonfinite'], False
+            x = np.stack([pa.x[:n], pa.y[:n], pa.z[:n]], axis=1)
+            P += (m[:, None] * a).sum(axis=0)
+            an = np.sqrt((a * a).sum(axis=1))
+            # (the rounding of ax = u + correction is relative to |ax|)
+            S += float((m * np.sqrt((araw * araw).sum(axis=1))).sum())
+            Lm += (m[:, None] * np.cross(x, a)).sum(axis=0)
+            SL += float((m * np.sqrt((x * x).sum(axis=1)) * an).sum())
+        sums.append((P, S))
+        s.last = dict(lin=(np.abs(P).max() / S) if S > 0 else 0.0)
+        if S > 0 and np.abs(P).max() > TOL * S:
             fails.append(Failure(
-                name, 'angular_momentum',
-                '%s with %s/%s dim %d: |sum m x cross a| = %.3g, scale %.3g'
-                % (name, kernel_name, data['nnps'], s.dim,
-                   np.abs(Lm).max(), SL), kl))
-    nt = S > 0 and varh
+                name, 'linear_momentum',
+                '%s: |sum m %s| = %.3g, sum m|a| = %.3g' % (
+                    where, acc[0][:-1] + acc[0][-1], np.abs(P).max(), S),
+                kl))
+        if e['central'] and s.dim >= 2 and SL > 0 and not periodic:
+            labels.append('angular_checked')
+            s.last['ang'] = np.abs(Lm).max() / SL
+            if np.abs(Lm).max() > TOL * SL:
+                fails.append(Failure(
+                    name, 'angular_momentum',
+                    '%s: |sum m x cross a| = %.3g, scale %.3g'
+                    % (where, np.abs(Lm).max(), SL), kl))
+        nontrivial = nontrivial or S > 0
+    if e['combined'] and len(trips) == 2:
+        # the sum of both accelerations, relative to the scale of the sum
+        P = np.zeros(3)
+        S = 0.0
+        for pa, n in zip(s.arrays, nreal):
+            m = pa.m[:n]
+            a = sum(np.stack([pa.get(q)[:n] for q in acc], axis=1)
+                    for acc in trips)
+            P += (m[:, None] * a).sum(axis=0)
+            S += float((m * np.sqrt((a * a).sum(axis=1))).sum())
+        if S > 0 and np.abs(P).max() > TOL * S:
+            fails.append(Failure(
+                name, 'linear_momentum',
+                '%s: |sum m (a + ahat)| = %.3g, sum m|a + ahat| = %.3g' % (
+                    where, np.abs(P).max(), S), kl))
+    if e['energy']:
+        T = 0.0
+        ST = 0.0
+        for pa, n, a0 in zip(s.arrays, nreal, data['arrays']):
+            m = pa.m[:n]
+            ae = pa.ae[:n]
+            va = (np.asarray(a0['u']) * pa.au[:n] +
+                  np.asarray(a0['v']) * pa.av[:n] +
+                  np.asarray(a0['w']) * pa.aw[:n])
+            if not np.all(np.isfinite(ae)):
+                return fails, labels + ['nonfinite'], False
+            T += float((m * (ae + va)).sum())
+            ST += float((m * (np.abs(ae) + np.abs(va))).sum())
+        if ST > 0:
+            labels.append('energy_checked')
+            s.last['en'] = abs(T) / ST
+            if abs(T) > TOL * ST:
+                fails.append(Failure(
+                    name, 'total_energy',
+                    '%s: |sum m (ae + v.a)| = %.3g, scale %.3g' % (
+                        where, abs(T), ST), kl))
+    if e['scalar']:
+        prop, weight = e['scalar']
+        T = 0.0
+        ST = 0.0
+        for pa, n in zip(s.arrays, nreal):
+            wgt = pa.m[:n] / pa.rho[:n]
+            q = pa.get(prop)[:n]
+            if not np.all(np.isfinite(q)):
+                return fails, labels + ['nonfinite'], False
+            T += float((wgt * q).sum())
+            ST += float((wgt * np.abs(q)).sum())
+        nontrivial = nontrivial or ST > 0
+        if ST > 0:
+            labels.append('volume_checked')
+            s.last = dict(vol=abs(T) / ST)
+            if abs(T) > TOL * ST:
+                fails.append(Failure(
+                    name, 'volume_weighted_rate',
+                    '%s: |sum (m/rho) %s| = %.3g, scale %.3g' % (
+                        where, prop, abs(T), ST), kl))
+    nt = nontrivial and varh
     return fails, labels, nt
 
 
@@ -361,23 +824,51 @@ def plan(ctx):
     shards = []
     if ctx['tier'] == 'quick':
         combos = []
-        for i in range(8):
-            kern = KERNELS[(i + seedv) % len(KERNELS)]
+        kk = KERNELS + KERNELS_1D
+        narrs = [1, 2, 2, 3, 3, 1, 2, 2, 3, 3]
+        for i in range(10):
+            kern = kk[(i + seedv) % len(kk)]
             dim = [2, 3, 1, 2][(i + seedv) % 4]
-            if kern.startswith('Wendland') and dim == 1:
+            if kern.endswith('_1D'):
+                dim = 1
+            elif kern.startswith('Wendland') and dim == 1:
                 dim = 2
-            combos.append((kern, dim, 1 + (i % 2)))
-        n = 60
+            combos.append((kern, dim, narrs[i], i == 6))
+        n = 300
     else:
-        combos = [(k, d, na) for k in KERNELS for d in (1, 2, 3)
-                  for na in (1, 2)
+        combos = [(k, d, na, (j + d + na) % 5 == 0)
+                  for j, k in enumerate(KERNELS) for d in (1, 2, 3)
+                  for na in (1, 2, 3)
                   if not (k.startswith('Wendland') and d == 1)]
+        combos += [(k, 1, na, na == 2) for k in KERNELS_1D
+                   for na in (1, 2, 3)]
         n = 1500
-    for i, (kern, dim, na) in enumerate(combos):
-        shards.append(dict(name='sys-%02d-%s-%dd-%da' % (i, kern, dim, na),
-                           kernel=kern, dim=dim, narr=na, n=n,
-                           variant=(i + seedv) % 3))
+    count = {}
+    for i, (kern, dim, na, omp) in enumerate(combos):
+        # the slice advances with every shard of the same number of arrays
+        slc = count.get(na, 0) + seedv
+        count[na] = count.get(na, 0) + 1
+        sp = dict(name='sys-%02d-%s-%dd-%da%s' % (i, kern, dim, na,
+                                                   '-omp' if omp else ''),
+                  kernel=kern, dim=dim, narr=na, n=n,
+                  variant=(i + seedv) % 84, openmp=bool(omp),
+                  slice=slc % NSLICES[na],
+                  # the machine is shared: a few OpenMP threads only (the
+                  # neighbour searches run their parallel paths with them)
+                  omp=3 if omp else 2)
+        shards.append(sp)
     return shards
+
+
+def radius_scale(kernel_name, dim):
+    from pysph.base import kernels
+    return float(getattr(kernels, kernel_name)(dim=dim).radius_scale)
+
+
+def case_of(spec, data):
+    return dict(kernel=spec['kernel'], dim=spec['dim'], narr=spec['narr'],
+                variant=spec['variant'], openmp=spec.get('openmp', False),
+                slice=spec.get('slice'), data=data)
 
 
 def run_shard(spec, ctx):
@@ -386,22 +877,20 @@ def run_shard(spec, ctx):
     stats.extra['jit_compiles'] = 0
 
     def execute(data):
-        ctx.journal(dict(kernel=spec['kernel'], dim=spec['dim'],
-                         narr=spec['narr'], variant=spec['variant'],
-                         data=data))
+        ctx.journal(case_of(spec, data))
         if 's' not in holder:
             holder['s'] = setup(spec['kernel'], spec['dim'], spec['narr'],
-                                data, spec['variant'])
+                                data, spec['variant'],
+                                spec.get('openmp', False), spec.get('slice'))
             stats.extra['jit_compiles'] += 1
         fails, labels, nt = run(holder['s'], data, spec['kernel'])
         return Outcome(fails, sorted(set(labels)), nt)
-    search(data_strategy(spec['narr'], spec['dim']), execute,
+    search(data_strategy(spec['narr'], spec['dim'],
+                         radius_scale(spec['kernel'], spec['dim'])), execute,
            derive_seed(ctx.seed, 'C09', spec['name']), spec['n'], stats,
            shrink=True)
     for f in stats.failures:
-        f['case'] = dict(kernel=spec['kernel'], dim=spec['dim'],
-                         narr=spec['narr'], variant=spec['variant'],
-                         data=f['case'])
+        f['case'] = case_of(spec, f['case'])
     stats.nontrivial = set(case_hash([spec['name'], h])
                            for h in stats.nontrivial)
     stats.samples = [dict(kernel=spec['kernel'], dim=spec['dim'], data=s)
@@ -411,6 +900,7 @@ def run_shard(spec, ctx):
 
 def run_case(case, component, ctx):
     s = setup(case['kernel'], case['dim'], case['narr'], case['data'],
-              case.get('variant', 0))
+              case.get('variant', 0), case.get('openmp', False),
+              case.get('slice'))
     fails, _, _ = run(s, case['data'], case['kernel'])
     return [f.as_dict(case) for f in fails]
